@@ -4,6 +4,13 @@ namespace Driver
 open Op2
 
 def hex? (s : String) : Option Bytes := bytesOfHex s
+/-- data argument: hex, or `gen:<len>:<seed>` (same formula as harness/drv/stream.cpp `dataArg`) -/
+def data? (s : String) : Option Bytes :=
+  match s.splitOn ":" with
+  | ["gen", n, seed] => do
+      let n ← n.toNat?; let seed ← seed.toNat?
+      pure ((List.range n).map fun i => UInt8.ofNat ((i * 131 + seed * 7 + (i >>> 8)) % 256))
+  | _ => bytesOfHex s
 def nat? (s : String) : Option Nat := s.toNat?
 def int? (s : String) : Option Int := s.toInt?
 
